@@ -80,6 +80,8 @@ class Registry:
     def __init__(self):
         self.contracts = {}       # fdef.key -> Contract
         self.inline = set()       # fdef.key that may be inlined without contract
+        self.func_models = {}
+        self.field_hooks = {}     # (class, field) -> hook(it, obj, new value): ghost bookkeeping on assignment     # fdef.key -> python model replacing a repository function (listed as assumed)
         self.ext_models = {}      # dotted name -> python callable(interp, args, kwargs)
         self.spec_funcs = {}      # name -> python callable(interp, *args)
         self.class_fields = {}    # class name -> {field: type}   (for fresh objects)
@@ -361,7 +363,21 @@ class Interp:
     def s_ImportFrom(self, s, fr):
         for a in s.names:
             if s.level > 0 or (s.module or "").split(".")[0] == "wormhole":
-                raise OutOfSubset("local repo import inside function")
+                pkg = fr.module.relpath.split("/")[:-1]
+                base = pkg[:len(pkg) - (s.level - 1)] if s.level > 0 else []
+                parts = base + ((s.module or "").split(".") if s.module else [])
+                m2 = source.module_from_parts(parts)
+                if m2 is None:
+                    raise OutOfSubset("local repo import inside function")
+                sub = source.module_from_parts(parts + [a.name])
+                if sub is not None and a.name not in m2.funcs and a.name not in m2.classes:
+                    fr.locals[a.asname or a.name] = VExt("repo:" + sub.relpath)
+                    continue
+                v = self.module_name(m2, a.name)
+                if v is None:
+                    raise OutOfSubset(f"cannot import {a.name}")
+                fr.locals[a.asname or a.name] = v
+                continue
             fr.locals[a.asname or a.name] = VExt(f"{s.module}.{a.name}")
 
     def s_Expr(self, s, fr):
@@ -414,12 +430,25 @@ class Interp:
                 self.assign(e, x, fr)
         elif isinstance(t, ast.Subscript):
             o = self.force(self.eval(t.value, fr))
+            if isinstance(t.slice, ast.Slice):
+                if t.slice.lower is None and t.slice.upper is None and t.slice.step is None:
+                    v = self.force(v)
+                    if isinstance(o, VList) and isinstance(v, (VList, VTuple)):
+                        o.items[:] = list(v.items)
+                        return
+                    if isinstance(o, VSeq):
+                        o.z = to_z3(v, T("seq", [o.elem]))
+                        return
+                raise OutOfSubset("slice assignment")
             k = self.eval(t.slice, fr)
             self.setitem(o, k, v)
         else:
             raise OutOfSubset(f"assign target {type(t).__name__}")
 
     def set_field(self, o, name, v):
+        h = self.reg.field_hooks.get((o.cls, name))
+        if h is not None:
+            h(self, o, v)
         o.fields[name] = v
 
     def unpack(self, v, n):
@@ -615,6 +644,9 @@ class Interp:
         if c is not None:
             spec = c.loops.get(ordn)
         if spec is None:
+            eng = getattr(self.reg, "cluster_engine", None)
+            if eng is not None:
+                return eng.cluster_loop(self, s, fr, it)
             raise OutOfSubset(f"loop #{ordn} in {fr.fdef.key if fr.fdef else '?'} has no invariant")
         header = ast.unparse(s.test) if isinstance(s, ast.While) else f"for {ast.unparse(s.target)} in {ast.unparse(s.iter)}"
         if spec.get("header") and spec["header"] != header:
@@ -1796,6 +1828,9 @@ class Interp:
             r = self.reg.automat.maybe_dispatch(self, f, fd, args, kwargs, fr)
             if r is not _NOCONST:
                 return r
+        fm = self.reg.func_models.get(key)
+        if fm is not None:
+            return fm(self, args, kwargs, fr)
         c = self.reg.contracts.get(key)
         if c is not None and key != self.reg.current and not c.inline:
             return c.apply(self, args, kwargs, fr)
@@ -1822,11 +1857,16 @@ class Interp:
             self.depth -= 1
         return NONE
 
+    def call_func_plain(self, f, args, kwargs, fr):
+        return self.call_func(f, args, kwargs, fr)
+
     def instantiate(self, cls, args, kwargs, fr):
         name = cls.name
-        if name in self.reg.exc_bases and (cls.cdef is None or "__init__" not in cls.cdef.methods):
-            return VObj(name, {"args": VTuple(list(args))})
         cd = cls.cdef
+        if cd is not None and any(b.split(".")[-1] == "Interface" for b in cd.bases) and len(args) == 1 and not kwargs:
+            return args[0]        # zope interface adapter IFoo(x): identity (dropped syntax)
+        if self.reg.is_subclass(name, "BaseException") and (cd is None or "__init__" not in cd.methods):
+            return VObj(name, {"args": VTuple(list(args))})
         if cd is None:
             raise OutOfSubset(f"instantiate {name}")
         self.reg.register_repo_class(cd)
